@@ -1134,6 +1134,10 @@ func (sg *sioGen) opMsg(track, mixed bool) interface{} {
 		del = append(del, id)
 		dead(id)
 	}
+	if g.chance(0.06) {
+		// the operation also names a service machine, with a specification for it: the service machines keep their own
+		upd[g.pick([]string{sio.TimersMachine, sio.CaptainMachine})] = sioMachJSON(sg.cfg(), nil)
+	}
 	if len(upd) > 0 {
 		m["update"] = upd
 	}
@@ -1361,6 +1365,13 @@ func sioCorpus() []*sioCase {
 			msg(`{"to":["captain","a"],"delete":["a"],"tag":"gone-before"}`), create("a", "L0", "fwd"),
 			msg(`{"to":["a","captain"],"delete":["a"],"tag":"seen-then-gone","then":[{"tag":"k","to":"a"}]}`)}},
 	}
+	cs = append(cs, &sioCase{Kind: "an update names the service machines (specification only)", Ops: []*sioOp{create("a", "L0", "fwd"), create("b", "L1", "rev"),
+		msg(`{"to":"captain","update":{"timers":{"spec":{"inline":{"name":"L5","doc":"fwd"}}}}}`),
+		msg(`{"tag":"unrouted","makeTimer":{"in":"1h","msg":{"tag":"fired"},"id":"T7"},"then":[{"tag":"t1"}]}`),
+		msg(`{"to":"captain","update":{"captain":{"spec":{"inline":{"name":"L6","doc":"rev"}}},"b":{"state":{"node":"flip","bs":{"k":2}}}}}`),
+		msg(`{"tag":"unrouted-op","delete":["a"],"update":{"c":{"spec":{"inline":{"name":"L7","doc":"fwd"}}}}}`),
+		msg(`{"to":"*","tag":"star","delete":["b"]}`), msg(`{"to":"a","tag":"still-there"}`),
+		msg(`{"to":"captain","delete":["a"]}`), msg(`{"tag":"after"}`)}})
 	// a burst: one walk emits 1300 messages for another machine, which all are delivered and reported
 	burst := make([]interface{}, 1300)
 	for i := range burst {
